@@ -3,8 +3,10 @@ package cx
 import (
 	"fmt"
 	"os"
+	"runtime"
 	"runtime/debug"
 	"runtime/pprof"
+	"strconv"
 	"strings"
 	"time"
 
@@ -82,11 +84,22 @@ func Scenarios(r *ev.Run, withDry bool) []*Scenario {
 
 // RunProperty is the whole check for C01 ("c01:") or C02 ("c02:").
 func RunProperty(r *ev.Run, prefix string) {
-	debug.SetGCPercent(400)
+	gcp := 100
+	if v, err := strconv.Atoi(os.Getenv("VERIF_GOGC")); err == nil {
+		gcp = v
+	}
+	debug.SetGCPercent(gcp)
+	if v, err := strconv.Atoi(os.Getenv("VERIF_BALLAST_MB")); err == nil && v > 0 {
+		ballast = make([]byte, v<<20)
+	}
 	if pf := os.Getenv("VERIF_CPUPROF"); pf != "" {
 		fp, _ := os.Create(pf)
 		pprof.StartCPUProfile(fp)
 		defer pprof.StopCPUProfile()
+	}
+	if mf := os.Getenv("VERIF_MEMPROF"); mf != "" {
+		runtime.MemProfileRate = 4096
+		defer func() { fp, _ := os.Create(mf); pprof.Lookup("allocs").WriteTo(fp, 0); fp.Close() }()
 	}
 	scs := Scenarios(r, prefix == "c02:")
 	bounds := map[string]any{}
@@ -98,5 +111,19 @@ func RunProperty(r *ev.Run, prefix string) {
 			"states": st.States, "transitions": st.Transitions, "max_spans_per_trace": s.MaxSpansPerTrace, "wall_s": time.Since(t).Seconds()}
 		fmt.Printf("  %-18s depth %d/%d states %d transitions %d  %.1fs\n", s.Name, st.DepthCompleted, s.Depth, st.States, st.Transitions, time.Since(t).Seconds())
 	}
+	// loop conformance on the two deterministic-sampler scenarios
+	nloop := 0
+	for _, s := range scs {
+		if d, ok := map[string]int{"det-w1": ev.Pick(r, 4, 5), "det-w2": ev.Pick(r, 3, 4)}[s.Name]; ok {
+			t := time.Now()
+			n := s.LoopConformance(r, prefix, d)
+			nloop += n
+			bounds["loop:"+s.Name] = map[string]any{"depth": d, "histories": n, "alphabet": fmt.Sprint(s.loopAlphabet()), "wall_s": time.Since(t).Seconds()}
+			fmt.Printf("  loop:%-13s depth %d histories %d  %.1fs\n", s.Name, d, n, time.Since(t).Seconds())
+		}
+	}
+	r.Set("traces_validated_against_impl", nloop)
 	r.Set("bounds", bounds)
 }
+
+var ballast []byte
